@@ -33,7 +33,7 @@ def obj_branch(r, names, ap=None):
 def composition(r):
     """Returns (label, allOf branch list)."""
     k = r.random()
-    if k < 0.4:
+    if k < 0.35:
         n = r.randrange(2, 4)
         shared = r.sample(PROPS, r.randrange(0, 2))
         out = []
@@ -47,7 +47,21 @@ def composition(r):
                 b["properties"][s_] = r.choice([{"type": "integer"}, {"type": "integer", "minimum": 0}, {}])
             out.append(b)
         return "objects", out
-    if k < 0.55:
+    if k < 0.5:
+        # two branches give the same OPTIONAL member incompatible types, a third one requires it
+        pn = r.choice(PROPS)
+        t1, t2 = r.sample([{"type": "string"}, {"type": "integer"}, {"type": "boolean"}, {"type": "array", "items": {"type": "string"}}], 2)
+        a = {"type": "object", "properties": {pn: t1, "keep": {"type": "integer"}}}
+        b = {"type": "object", "properties": {pn: t2}}
+        c = {"type": "object", "required": [pn] if r.random() < 0.7 else ["keep"]}
+        ap = r.choice([None, True, True])
+        if ap is not None:
+            r.choice([a, b, c])["additionalProperties"] = ap
+        out = [a, b, c]
+        if r.random() < 0.3:
+            out.append(obj_branch(r, [x for x in r.sample(PROPS, 2) if x != pn]))
+        return "conflict", out
+    if k < 0.6:
         return "ref+object", [{"$ref": "#/definitions/Base"}, obj_branch(r, r.sample(PROPS, r.randrange(1, 3)))] + \
             ([obj_branch(r, r.sample(PROPS, 1))] if r.random() < 0.3 else [])
     if k < 0.7:
